@@ -254,6 +254,11 @@ func (l *Gpos6_1) encode() []byte {
 		byte(mark2Count>>8), byte(mark2Count),
 	)
 	offs = 2 + 2*mark2Count*markClassCount
+	if mark2Count*markClassCount > (65536-6-2)/2 {
+		// the reader refuses larger arrays: there must still be space for
+		// at least one anchor table
+		panic("Gpos6_1 too large")
+	}
 	for _, row := range l.Mark2Array {
 		for _, rec := range row {
 			if rec.IsEmpty() {
